@@ -141,6 +141,16 @@ func (rn *runner) check(root px.Context, w *World, toCoq bool) {
 					break
 				}
 			}
+			for _, a := range sp.Attrs {
+				if hasStruct(a.Type) {
+					if d.Accepted {
+						res.Count("def.with-struct-attribute.accepted")
+					} else {
+						res.Count("def.with-struct-attribute.rejected")
+					}
+					break
+				}
+			}
 		} else {
 			res.Count("def.raw-noise")
 		}
@@ -155,6 +165,10 @@ func (rn *runner) check(root px.Context, w *World, toCoq bool) {
 		}
 		if o.Err == "" {
 			res.Count(kind + ".ok")
+			if leavesMemberOut(w, &w.News[i]) {
+				// some attribute value is (or contains) a Hash that leaves an optional Struct member out
+				res.Count(kind + ".ok.struct-member-left-out")
+			}
 		} else {
 			res.Count(kind + "." + o.Err)
 		}
@@ -277,6 +291,65 @@ func (rn *runner) replay(root px.Context) {
 		}
 		rn.cases.add(w, wo)
 	}
+}
+
+func hasStruct(t Ty) bool {
+	if t.K == "struct" {
+		return true
+	}
+	return t.E != nil && hasStruct(*t.E)
+}
+
+// structOf: the Struct type at or below Optional / Variant[Undef, .] (for counting only)
+func leavesOut(t Ty, v RV) bool {
+	switch t.K {
+	case "opt", "varu":
+		return v.K != "undef" && leavesOut(*t.E, v)
+	case "arr":
+		for _, e := range v.A {
+			if leavesOut(*t.E, e) {
+				return true
+			}
+		}
+	case "struct":
+		if v.K != "hash" {
+			return false
+		}
+		for _, m := range t.M {
+			e, ok := v.get(m.N)
+			if !ok || leavesOut(m.T, e) {
+				return true
+			}
+		}
+	}
+	return false
+}
+
+func leavesMemberOut(w *World, r *NewReq) bool {
+	sp := w.Defs[r.T].Spec
+	if sp == nil {
+		return false
+	}
+	vals := r.Args
+	if r.Named {
+		vals = nil
+		for _, kv := range r.Hash {
+			vals = append(vals, kv.V)
+		}
+	}
+	for _, v := range vals {
+		for di := 0; di <= r.T && di < len(w.Defs); di++ {
+			if w.Defs[di].Spec == nil {
+				continue
+			}
+			for _, a := range w.Defs[di].Spec.Attrs {
+				if hasStruct(a.Type) && instOf(a.Type, v) && leavesOut(a.Type, v) {
+					return true
+				}
+			}
+		}
+	}
+	return false
 }
 
 func attrNamesOf(info []AttrObs) []string {
